@@ -217,6 +217,7 @@ def tbLine (d : TBDrv) (lineNo : Nat) (ts : List String) : TBDrv × List String 
   | ["close"] => silent "close" (close m)
   | ["release"] => silent "release" (release m)
   | ["start"] => silent "start" (start m)
+  | ["autojoin"] => ({ d with model := some (autoJoinStale m), cnt := d.cnt.bump "autojoin-stale" }, [])
   | "setup" :: rest =>
     match kvNat rest "gc", (kv rest "parts") with
     | some gc, some ps =>
